@@ -17,7 +17,9 @@ PROP = dict(
                 'only to construct inputs; 2^128 pairs are sampled, not '
                 'enumerated'),
     rule=('case = (arity 1..4, entry point Put64 | Put64FixedWidth at the '
-          'canonical width, per position a pair kind and its values); '
+          'canonical width | Put64(v-d)+AddGrow(+d) | Put64(v+d)+AddGrow(-d) '
+          'compared with a directly written key, per position a pair kind '
+          'and its values); '
           'non-trivial = some position has a != b and (their encoded lengths '
           'differ, or the encodings have equal length and differ in exactly '
           'one payload byte); distinct by hash of (arity, entry point, all '
